@@ -158,6 +158,9 @@ def _arms(ctx, b):
             for t in b.calls(r'Iterator::map$'):
                 a = sym(b, t.args[1])
                 if a[0] == 'agg' and a[2] == c.path:
+                    # only a map over the old exclusion set is a re-indexing (a map over 0..len that produces the new positions is not)
+                    if not any(isinstance(x, tuple) and x and x[0] == 'call' and 'HashSet' in x[1] and x[1].endswith('into_iter') for x in walk(init_value(b, sym(b, t.args[0])))):
+                        continue
                     for g in guards_at(b, t.bb):
                         if g.values is not None and len(g.values) == 1 and g.t[0] == 'index' and g.dty != 'bool':
                             k = {0: 'insert-shift', 1: 'delete-shift', 2: 'replace-shift'}.get(list(g.values)[0])
@@ -166,6 +169,9 @@ def _arms(ctx, b):
                     pending.append((c, t))
     # a re-indexing closure belongs to the edit kind whose candidate filter runs in the same match arm (dominates its use): this does
     # not depend on how the chosen edit kind is represented (integer code, enum, ...)
+    # among several mapping closures of one arm the re-indexing one is the one that runs over the old exclusion set
+    pending.sort(key=lambda ct: 0 if any(isinstance(x, tuple) and x and x[0] == 'call' and 'HashSet' in x[1] and x[1].endswith('into_iter')
+                                           for x in walk(init_value(b, sym(b, ct[1].args[0])))) else 1)
     for c, t in pending:
         if c in roles.values():
             continue
@@ -283,6 +289,24 @@ def r3(ctx):
         src = core(loop_source(b, nx[0])) if nx else ()
         okv = v[0] == 'bin' and v[1] == 'Add' and has(src, ('agg', 'adt', Pred(lambda n: n.endswith('Range::Range')), (Const(0), ANY)))
         ok = ok and okv
+    if not ok:
+        # the same positions added with `extend((0..len).map(|l| base + l))`
+        from analysis.seq import seq_of_iter, ITEM as _IT
+        from rules.common import range_bounds
+        n_ok = len([1 for t in loops])
+        for t in b.calls(r'Extend>::extend$|HashSet::extend$'):
+            if not match(core(sym(b, t.args[0])), _var('exclude_indices')):
+                continue
+            sg = seq_of_iter(ctx.facts, b, sym(b, t.args[1]))
+            if sg is not None and len(sg) == 1 and sg[0].kind == 'each' and not sg[0].conds and range_bounds(sg[0].src) is not None and range_bounds(sg[0].src)[0] == 0:
+                e = core(sg[0].elem)
+                if e[0] == 'bin' and e[1] == 'Add' and (core(e[2]) == _IT or core(e[3]) == _IT):
+                    n_ok += 1
+        okl = True
+        for t in loops:
+            v = core(sym(b, t.args[1]))
+            okl = okl and v[0] == 'bin' and v[1] == 'Add'
+        ok = n_ok == 2 and okl
     ctx.require(ok, b, 'new-positions', 'insert / replace add base + l for l in 0..len to the exclusion set', None)
     sw = [v for v in vals if (v[0] == 'var' and 'swap' in v[1]) or (v[0] == 'bin' and v[1] == 'Add' and v[3][0] == 'const' and v[3][2] == 1)
           or (v[0] == 'index')]
